@@ -24,8 +24,9 @@ import (
 type cfgT struct {
 	Parallel, Kv, Batch, Vocab, Eos, Pad, MaskPad int
 	Multi, Shift, Partial, Resume, NoCache, Watch bool
-	Window                                        int  // 0: plain causal; >0: sliding window cache
-	Encoder                                       bool // WrapperCache(EncoderCache, Causal), as mllama
+	Window                                        int   // 0: plain causal; >0: sliding window cache
+	Encoder                                       bool  // WrapperCache(EncoderCache, Causal), as mllama
+	Wrap                                          []int // WrapperCache of these caches (0: causal, w > 0: sliding window w), as gemma2/gemma3
 }
 
 func getCfg(c map[string]any) cfgT {
@@ -42,7 +43,13 @@ func getCfg(c map[string]any) cfgT {
 		}
 		return d
 	}
-	return cfgT{Parallel: i("parallel", 1), Kv: i("kv", 8), Batch: i("batch", 4), Vocab: i("vocab", 8), Eos: i("eos", -1),
+	var wrap []int
+	if l, ok := m["wrap"].([]any); ok {
+		for _, x := range l {
+			wrap = append(wrap, hx.Int(x))
+		}
+	}
+	return cfgT{Wrap: wrap, Parallel: i("parallel", 1), Kv: i("kv", 8), Batch: i("batch", 4), Vocab: i("vocab", 8), Eos: i("eos", -1),
 		Pad: i("pad", 1), MaskPad: i("maskpad", 1), Multi: b("multi", false), Shift: b("shift", true), Partial: b("partial", true), Resume: b("resume", true),
 		NoCache: b("nocache", false), Window: i("window", 0), Watch: b("watch", false), Encoder: b("encoder", false)}
 }
@@ -53,6 +60,7 @@ type world struct {
 	m       *scripted
 	causal  *kvcache.Causal
 	front   *limitedCache
+	causals []*kvcache.Causal // every causal / sliding-window cache behind the runner (one unless cfg.Wrap)
 	enc     *kvcache.EncoderCache
 	wrapper *kvcache.WrapperCache
 	reqs    map[int]*ollamarunner.Sequence // request index -> sequence (live or finished, until closed seen)
@@ -68,12 +76,28 @@ func newWorld(cfg cfgT) (*world, error) {
 		if cfg.Shift {
 			sf = shiftKeys
 		}
-		if cfg.Window > 0 {
-			w.causal = kvcache.NewSWACache(int32(cfg.Window), sf)
-		} else {
-			w.causal = kvcache.NewCausalCache(sf)
+		mk := func(win int) *kvcache.Causal {
+			if win > 0 {
+				return kvcache.NewSWACache(int32(win), sf)
+			}
+			return kvcache.NewCausalCache(sf)
 		}
-		var inner kvcache.Cache = w.causal
+		var inner kvcache.Cache
+		if len(cfg.Wrap) > 0 {
+			var cs []kvcache.Cache
+			for _, win := range cfg.Wrap {
+				c := mk(win)
+				w.causals = append(w.causals, c)
+				cs = append(cs, c)
+			}
+			w.causal = w.causals[0]
+			w.wrapper = kvcache.NewWrapperCache(cs...)
+			inner = w.wrapper
+		} else {
+			w.causal = mk(cfg.Window)
+			w.causals = []*kvcache.Causal{w.causal}
+			inner = w.causal
+		}
 		if cfg.Encoder {
 			// as model/models/mllama builds it
 			w.enc = kvcache.NewEncoderCache()
@@ -88,7 +112,7 @@ func newWorld(cfg cfgT) (*world, error) {
 			cache = w.front
 		}
 	}
-	w.m = &scripted{Base: model.VerifNewBase(be, cache), vocab: int32(cfg.Vocab), eos: int32(cfg.Eos), wrapper: w.wrapper, enc: w.enc}
+	w.m = &scripted{Base: model.VerifNewBase(be, cache), vocab: int32(cfg.Vocab), eos: int32(cfg.Eos), wrapper: w.wrapper, enc: w.enc, ntypes: len(cfg.Wrap)}
 	var err error
 	w.srv, err = ollamarunner.VerifNewServer(w.m, cfg.Parallel, cfg.Batch, cfg.Kv, cfg.Multi)
 	return w, err
@@ -126,16 +150,18 @@ func promptAndImages(v any) (string, []llm.ImageData) {
 	return sb.String(), images
 }
 
-func (w *world) cells() [][][3]int {
+func (w *world) cells() [][][3]int { return w.cellsOf(w.causal) }
+
+func (w *world) cellsOf(causal *kvcache.Causal) [][][3]int {
 	n := w.cfg.Parallel
 	out := make([][][3]int, n)
 	for i := range out {
 		out[i] = [][3]int{}
 	}
-	if w.causal == nil {
+	if causal == nil {
 		return out
 	}
-	for _, c := range w.causal.VerifCells07() {
+	for _, c := range causal.VerifCells07() {
 		for _, s := range c.Seqs {
 			kp, tk := int(c.Kpos), int(c.Tok)
 			if !c.Data {
@@ -165,6 +191,13 @@ func (w *world) cells() [][][3]int {
 func (w *world) observe(e map[string]any) {
 	e["state"] = w.srv.VerifState()
 	e["cells"] = w.cells()
+	if len(w.causals) > 1 {
+		ct := [][][][3]int{}
+		for _, c := range w.causals {
+			ct = append(ct, w.cellsOf(c))
+		}
+		e["cellst"] = ct
+	}
 	resp := map[string]any{}
 	for k, q := range w.reqs {
 		pieces, closed := q.VerifDrain()
@@ -279,6 +312,11 @@ func runHist(c map[string]any) any {
 	out := map[string]any{"numctx": w.srv.VerifNumCtx()}
 	if w.causal != nil {
 		out["ncells"] = w.causal.VerifNumCells07()
+		nc := []int{}
+		for _, c := range w.causals {
+			nc = append(nc, c.VerifNumCells07())
+		}
+		out["ncellst"] = nc
 	}
 	nreq := 0
 	var reqOps []map[string]any
@@ -352,6 +390,7 @@ func freshRun(cfg cfgT, k int, o map[string]any, maxSteps int) any {
 	}
 	collect(e)
 	var chosen []int32
+	outvis := [][][][2]int{}
 	for i := 0; i < maxSteps && !w.srv.VerifIdle(); i++ {
 		e := w.step()
 		if r := e["res"].(map[string]any); r["err"] != nil {
@@ -360,11 +399,24 @@ func freshRun(cfg cfgT, k int, o map[string]any, maxSteps int) any {
 		}
 		for _, f := range e["fwd"].([]fwdRec) {
 			chosen = append(chosen, f.Chosen...)
+			// several layer types: what each layer type's cache exposed to every sampled entry
+			for _, o := range f.Outs {
+				if len(f.VisT) > 1 {
+					per := [][][2]int{}
+					for _, vt := range f.VisT {
+						per = append(per, vt[o])
+					}
+					outvis = append(outvis, per)
+				}
+			}
 		}
 		collect(e)
 	}
 	out["pieces"] = pieces
 	out["chosen"] = chosen
+	if len(cfg.Wrap) > 1 {
+		out["outvis"] = outvis
+	}
 	return out
 }
 
